@@ -13,7 +13,7 @@ TRUSTED = [
 ]
 ASSUMPTIONS = [
     "the float pipeline stages (seed_shader, transform, xy_to_radius, 2pt-conical, gradient search, premul, store) are tied to the ideal functions by the oracle only (partial)",
-    "non-linear colour spaces are not in the oracle",
+    "non-linear colour spaces are in the oracle for opaque stops drawn with Source only (exact transfer functions, 5e-4 slack in linear light for the pipeline's polynomial pow)",
 ]
 RULE = ("(a) Gradient::new on 2..8 stops with equal, unsorted, out-of-range, hard-stop, NaN/inf positions: sanitised list, has_uniform_stops, colors_are_opaque bit-exact; "
         "(b) linear / radial / two-point conical (focal inside, on, outside the circle) fills x 3 spread modes x lowp/highp x Source/SourceOver on 3 backgrounds x transforms: "
@@ -131,6 +131,42 @@ def gen_cases(rng, tier):
         x1, y1 = x0 + d * math.cos(a), y0 + d * math.sin(a)
         cases.append(("grad_px", [0, f2b(x0), f2b(y0), f2b(x1), f2b(y1), f2b(1.0), rng.randrange(3), int(rng.random() < 0.5),
                                   rng.randrange(2), rng.randrange(3), w, h] + ts + rand_stops(rng)))
+    # non-linear colour spaces (Paint::colorspace): opaque stops drawn with Source; the stops are expanded, interpolated in
+    # linear light and the result compressed
+    for i in range(150 if q else 2000):
+        w, h = rng.choice([(24, 20), (33, 9)])
+        kind = rng.choice([0, 0, 1])
+        x0, y0 = rng.uniform(-2, 6), rng.uniform(-2, h)
+        x1, y1 = rng.uniform(w - 8, w + 2), rng.uniform(-2, h)
+        st = rand_stops(rng, rng.choice([2, 3, 3, 4, 5]))
+        for k in range(st[0]):
+            st[5 + 5 * k] = f2b(1.0)
+            if rng.random() < 0.5:   # mid-range channel values, where the transfer curve matters most
+                for j in (2, 3, 4):
+                    st[j + 5 * k] = f2b(rng.choice([0.25, 0.5, 0.75, rng.uniform(0.1, 0.9)]))
+        if rng.random() < 0.4 and st[0] >= 3:
+            # an explicit first stop at 0 (no implicit one) with a mid-grey colour
+            st[1] = f2b(0.0)
+        cs = rng.choice([1, 2, 3])
+        cases.append(("grad_px", [kind, f2b(round(x0, 3)), f2b(round(y0, 3)), f2b(round(x1, 3)), f2b(round(y1, 3)), f2b(rng.choice([8.0, 15.5, 20.0])),
+                                  rng.randrange(3), 1 + 2 * cs, 0, rng.randrange(3), w, h] + list(IDENT) + st))
+    # degenerate linear gradients (start == end up to 2e-5): the last colour under Pad, the average colour over a period
+    # under Repeat / Reflect, including stop lists whose first position is above 0 or whose last is below 1
+    for i in range(150 if q else 2000):
+        w, h = 8, 6
+        x0, y0 = rng.choice([0.0, 3.0, 2.5]), rng.choice([0.0, 1.0])
+        x1 = x0 + rng.choice([0.0, 1.0e-5, 2.0e-5]) if x0 == 0.0 else x0
+        n = rng.choice([2, 2, 3, 4])
+        pos = sorted(rng.choice([0.0, 0.2, 0.25, 0.4, 0.5, 0.6, 0.8, 1.0, rng.random()]) for _ in range(n))
+        if rng.random() < 0.5:
+            pos[0] = rng.choice([0.2, 0.4, 0.5]); pos = sorted(pos)
+        st = [n]
+        opaque = rng.random() < 0.5
+        for p_ in pos:
+            st += [f2b(p_), f2b(rng.choice([0.0, 1.0, rng.random()])), f2b(rng.random()), f2b(rng.choice([0.0, 1.0, rng.random()])),
+                   f2b(1.0 if opaque else rng.choice([1.0, 0.5, rng.random()]))]
+        cases.append(("grad_px", [0, f2b(x0), f2b(y0), f2b(x1), f2b(y0), f2b(1.0), rng.randrange(3), int(rng.random() < 0.5),
+                                  rng.randrange(2) + 2 * rng.choice([0, 0, 3]), rng.randrange(3), w, h] + list(IDENT) + st))
     return cases
 
 
@@ -150,6 +186,9 @@ def oracle(suite, args, out):
     if len(o) >= 10 and o[9] == 0:
         if o[8] > 0:
             return "%d pixels where the conical gradient is undefined were changed (first (%d,%d))" % (o[8], o[3], o[4])
+        if o[1] > 0 and len(o) >= 12 and o[11] == 1:
+            return "degenerate linear gradient: %d of %d pixels differ from the documented solid colour (last stop under Pad, average over a period under Repeat/Reflect) by more than the tolerance (worst %.2f/255; first (%d,%d) channel %d got*1000+expected %d)" % (
+                o[1], o[0], o[2] / 100.0, o[3], o[4], o[5], o[6])
         if o[1] > 0:
             return "%d of %d pixels differ from the gradient colour by more than the tolerance (worst %.2f/255; first (%d,%d) channel %d got/expected %d)" % (
                 o[1], o[0], o[2] / 100.0, o[3], o[4], o[5], o[6])
@@ -168,4 +207,8 @@ def nontrivial_tag(suite, args, out):
     o = out.split()
     if suite == "grad_new":
         return "stops%s" % o[2] if len(o) > 3 else None
+    if len(o) >= 12 and o[11] == "1" and o[0] != "0":
+        return "degenerate-solid-judged"
+    if len(o) >= 10 and o[0] not in ("0", "-3", "-4") and (args[7] >> 1) % 4 != 0:
+        return "colorspace%d" % ((args[7] >> 1) % 4)
     return "kind%d" % args[0] if len(o) >= 10 and o[0] not in ("0", "-3", "-4") else None
